@@ -833,7 +833,11 @@ package service
 //@   trace[C12,accepted-connection-handed-off-once] loop 1 exactly 1 send
 //@   trace[C12,hands-off-what-it-accepted] loop 1 each send satisfies $recv == acceptCh && $arg0.conn == evres("service.(*TCPListener).AcceptStream", 0) && $arg0.err == evres("service.(*TCPListener).AcceptStream", 1)
 //@   trace[C12,accepts-on-its-own-socket] loop 1 each service.(*TCPListener).AcceptStream satisfies $arg0 == sharedLn
-//@   trace[C12,channel-closed-only-when-socket-closed] never send when evcount("close") > 0
+//@   trace[C12,nothing-sent-after-close] never send when evcount("close") > 0
+//@   trace[C12,channel-closed-only-after-checking-the-error] before errors.Is close
+//@   trace[C12,checks-the-accept-error-for-ErrClosed] each errors.Is satisfies $arg1 == net.ErrClosed
+//@   trace[C12,transient-accept-error-keeps-the-listener-open] each errors.Is satisfies $res0 == false ==> evcount("close") == 0
+//@   trace[C12,stops-only-when-the-socket-is-closed] each errors.Is satisfies $res0 == true ==> evcount("close") == 1
 
 // close function of one stream handle. It runs at most once per handle (the handle clears
 // its onCloseFunc) and only after Acquire counted the handle, hence count > 0 on entry.
